@@ -22,6 +22,7 @@ RULE = (
     "and 'R<line+1>', and a message naming the field. Non-trivial: >= 1 rejected row whose culprit is not in column "
     "1 or that lies behind a header or a ragged row; distinct by hash of (CID rows, table, via)."
     "The consumer overwrites every delivered row after copying it; ODS data are stored with runs of equal rows / cells; sources include spooled temporary files (name None); with checks in the CID two readings are set up under one Cid before either is consumed and both are judged."
+    "The consumer also moves the locations of every error it is handed. ODS cells may carry comments; delimited tables may hold empty lines."
 )
 ASSUMPTIONS = [
     "cells come from pools with a definite verdict; a neutral cell taints the rest of the table (not judged)",
